@@ -204,6 +204,60 @@ mutant('C03', 'constant-matrix-too-eager', 'solver.py',
        "        self.is_constant_matrix = self.is_linear\n",
        'System caches the matrix of a linear problem although it depends on another argument', expect='V-system')
 
+# ------------------------------------------------------------------ C17
+mutant('C17', 'ndarray-hash-without-shape-dtype', 'types.py',
+       "        h.update('{}{}\\0'.format(','.join(map(str, data.shape)), data.dtype.str).encode())\n",
+       "",
+       'arrays with equal bytes but different shape or dtype collide', expect='H-collision')
+mutant('C17', 'dict-items-unsorted', 'types.py',
+       "        for item in sorted(nutils_hash(k) + nutils_hash(v) for k, v in data.items()):\n            h.update(item)\n    elif t in (set, frozenset):",
+       "        for item in (nutils_hash(k) + nutils_hash(v) for k, v in data.items()):\n            h.update(item)\n    elif t in (set, frozenset):",
+       'dict hash depends on insertion order', expect='H-')
+mutant('C17', 'set-items-unsorted', 'types.py',
+       "        for item in sorted(map(nutils_hash, data)):\n            h.update(item)\n",
+       "        for item in map(nutils_hash, data):\n            h.update(item)\n",
+       'set hash depends on iteration order, i.e. on the hash seed of the interpreter', expect='H-')
+mutant('C17', 'dataclass-not-interned', 'types.py',
+       "        if (self := cls.__cache.get(bound.args)) is None:\n",
+       "        if True:\n",
+       'structurally equal DataClass values are distinct objects', expect='I-interning')
+mutant('C17', 'singleton-not-interned', 'types.py',
+       "        try:\n            self = cls._cache[args]\n        except KeyError:\n            self = cls._cache[args] = super()._new(*args)\n        return self\n",
+       "        self = super()._new(*args)\n        return self\n",
+       'structurally equal Singleton values are distinct objects', expect='I-interning')
+mutant('C17', 'arraydata-no-canonical-cast', 'types.py',
+       "        array = orig.astype(dtype, copy=False)\n        if array.dtype != orig.dtype and not numpy.equal(array, orig).all():",
+       "        array = orig\n        if False:",
+       'array container keeps the width / byte order of the input', expect='H-|E-')
+mutant('C17', 'lru-cache-no-eviction', 'types.py',
+       "            cache[key] = v, [weakref.ref(base, popkey) for base in bases]\n",
+       "            cache[key] = v, []\n",
+       'buffer-keyed cache entries survive their buffer: stale result after the address is re-used', expect='C-stale-cache')
+mutant('C17', 'no-type-tag', 'types.py',
+       "    h = hashlib.sha1(t.__name__.encode()+b'\\0')\n    if data is Ellipsis or data is None:",
+       "    h = hashlib.sha1(b'\\0')\n    if data is Ellipsis or data is None:",
+       'values of different builtin types with equal representation collide', expect='H-collision')
+mutant('C17', 'immutable-hash-without-module', 'types.py',
+       "        h = hashlib.sha1('{}.{}:{}\\0'.format(type(self).__module__, type(self).__qualname__, type(self)._version).encode())\n",
+       "        h = hashlib.sha1('{}:{}\\0'.format(type(self).__qualname__, type(self)._version).encode())\n",
+       'same-named Immutable classes of two modules collide', expect='H-collision')
+mutant('C17', 'dataclass-hash-without-module', 'types.py',
+       "        h = hashlib.sha1(f'{type(self).__module__}.{type(self).__qualname__}\\0'.encode())\n",
+       "        h = hashlib.sha1(f'{type(self).__qualname__}\\0'.encode())\n",
+       'same-named DataClass classes of two modules collide', expect='H-collision')
+mutant('C17', 'multiset-count-dropped', 'types.py',
+       "        for item in sorted('{:04d}'.format(count).encode()+nutils_hash(item) for item, count in self.__items.items()):\n",
+       "        for item in sorted(nutils_hash(item) for item, count in self.__items.items()):\n",
+       'multisets that differ only in multiplicities collide', expect='H-collision')
+mutant('C17', 'numpy-scalars-not-normalised', 'types.py',
+       "        t = dict(b=bool, i=int, f=float, c=complex)[data.dtype.kind]\n        data = t(data)\n",
+       "        pass\n",
+       'numpy integers hash differently from (or cannot be hashed like) the equal Python int', expect='H-|E-')
+mutant('C17', 'frozendict-items-unsorted', 'types.py',
+       "        for item in sorted(nutils_hash(k)+nutils_hash(v) for k, v in self.items()):\n            h.update(item)\n        return h.digest()\n\n    def __reduce__(self):\n        return frozendict, (self.__base,)",
+       "        for item in (nutils_hash(k)+nutils_hash(v) for k, v in self.items()):\n            h.update(item)\n        return h.digest()\n\n    def __reduce__(self):\n        return frozendict, (self.__base,)",
+       'frozendict hash depends on insertion order', expect='H-')
+
 
 def run_mutant(prop, m, tier='quick', keep=False):
     scratch = f'/dev/shm/vsim-mut-{os.getpid()}-{m["id"]}'
